@@ -26,6 +26,17 @@ def opt_suffix(opts):
 
 
 
+def requery_probe(b, rng, operand, stmt_builder, p=0.15):
+    """query - mutate - query: recompute the same operation after an in-place layer on the operand; a memo that
+    layer() does not reset would answer from the past"""
+    if operand.startswith("#") or rng.random() >= p:
+        return
+    b.add(f"layer {operand} {fs(rng.choice([None, 1, 2, 4]))} {fs(rng.choice([None, 5, 6, 9]))} {rng.choice([1, -2, 3])}")
+    h2 = b.reg("q")
+    b.add(stmt_builder(h2), focus=True)
+    b.add(f"frame {h2}", focus=True)
+
+
 def alias_probe(b, rng, operand, result, p=0.2):
     """write-after-operation: mutate an operand in place, the earlier result must not move (and vice versa)"""
     if operand.startswith("#") or rng.random() >= p:
@@ -230,6 +241,7 @@ def gen_pointwise(rng, n, ops, followups=False, scalar_vals=None):
         if followups:
             add_followups(b, rng, h)
         alias_probe(b, rng, a if not a.startswith("#") else c, h, p=0.12)
+        requery_probe(b, rng, a if not a.startswith("#") else c, lambda q: f"bin {q} {op} {a} {c}", p=0.12)
         if rng.random() < 0.5:
             # a stale internal form only shows downstream: feed the result to another operation
             other = a if not a.startswith("#") else c
@@ -255,6 +267,7 @@ def gen_unary(rng, n, ops, followups=False):
         b.observe(h)
         if followups:
             add_followups(b, rng, h)
+        requery_probe(b, rng, a, lambda q: f"un {q} {op} {a}", p=0.3)
         b.tags.update(op=op, mode="un")
         progs.append(b.program())
     return progs
@@ -444,6 +457,36 @@ def gen_c08(rng, n):
                 if rng.random() < 0.2:
                     opts.append("aggform=list")
                 b.add(f"stat {a} {name} {fs(lo)} {fs(hi)} default" + opt_suffix(opts), focus=True)
+        if rng.random() < 0.3:
+            # query - mutate - query on the same object (the cached integral/mean pair must not survive)
+            b.add(f"q {a} mean", focus=True)
+            b.add(f"q {a} integral", focus=True)
+            b.add(f"layer {a} {fs(rng.choice([None, 1, 3]))} {fs(rng.choice([None, 6, 8]))} {rng.choice([1, -2, 3])}")
+            for qq in ("mean", "integral", "var", "vsums"):
+                b.add(f"q {a} {qq}", focus=True)
+        progs.append(b.program())
+    return progs
+
+
+
+def gen_overflow_block(rng, n):
+    """datetime-like domains with a one-year unit and values in the thousands: value x length overflows int64 ns, so
+    mean / var go through the library's overflow fallback (integral itself is documented to raise there)"""
+    progs = []
+    big = [Fraction(x) for x in (500, 1000, 4000, 5000, 9000, -2000)]
+    for _ in range(n):
+        b = Builder(rng.choice(["dtbig", "tdbig"]))
+        while True:
+            f = rand_spec(rng, None, maxsteps=6, span=10, nanp=0.3, vals=big, stepfree_p=0.0)
+            if len(f.rows) >= 2 and spec_pieces(f):
+                break
+        a = b.emit(f, rng.choice(["fromvalues", "layers", "layerv"]), rng)
+        b.add(f"vsums {a}", focus=True)
+        b.add(f"stat {a} mean none none default ;; via=method", focus=True)
+        lo, hi = window_choice(rng, b, p_none=0.0)
+        if lo is not None and hi is not None and spec_pieces(f, lo, hi):
+            b.add(f"stat {a} mean {fs(lo)} {fs(hi)} default", focus=True)
+        b.tags.update(kind="overflow")
         progs.append(b.program())
     return progs
 
@@ -465,6 +508,7 @@ def gen_c09(rng, n):
         ys = sorted(set(vals + [v + Fraction(1, 4) for v in vals] + [vals[0] - 1, vals[-1] + 1]))
         for side in ("left", "right"):
             b.add(f"ecdf {a} {side} " + " ".join(fs(y) for y in ys), focus=True)
+        b.add(f"ecdfs {a} " + " ".join(fs(y) for y in ys) + (" ;; form=list" if rng.random() < 0.5 else ""), focus=True)
         ps = [p for p in P_POOL if exact or all(p != c * 100 for c in bounds[:-1])]
         if exact:
             ps += [c * 100 for c in bounds]
@@ -504,6 +548,16 @@ def gen_c09(rng, n):
             if not bins:
                 continue
             b.add(f"hist {a} {cl} {stat} " + " ".join(f"{fs(l)}:{fs(r)}" for l, r in bins) + f" ;; bins={how}", focus=True)
+        if rng.random() < 0.3:
+            # query - mutate - query: the distribution accessor must be rebuilt after an in-place layer
+            b.add(f"layer {a} {fs(rng.choice([None, 1, 3]))} {fs(rng.choice([None, 6, 8]))} {rng.choice([1, -2, 3])}")
+            b.add(f"ecdf {a} right " + " ".join(fs(y) for y in ys), focus=True)
+            b.add(f"ecdfs {a} " + " ".join(fs(y) for y in ys), focus=True)
+            b.add(f"vsums {a}", focus=True)
+            b.add(f"stat {a} modes none none default ;; via=method", focus=True)
+            b.add(f"hist {a} left sum unit", focus=True)
+            progs.append(b.program())
+            continue
         # describe over a window
         lo, hi = window_choice(rng, b)
         wp = spec_pieces(f, lo, hi)
